@@ -23,6 +23,8 @@ struct KeyInfo { KeyKind kind; std::string file; };
 // Load the key pool; returns false and sets *err on failure.
 bool init(const std::string &keydir, std::string *err);
 const std::vector<KeyInfo> &keys();
+// Reseed libcrypto's (replaced, deterministic) random source; call at the start of every case.
+void reseed(uint64_t seed);
 // SHA-1 of the subjectPublicKey BIT STRING contents (RFC 5280 4.2.1.2 method 1) of pool key k.
 Bytes key_id(int k);
 
